@@ -163,6 +163,15 @@ def run(prop, tier, seed, out):
         for m in json.load(open(cp))["mismatches"] or []:
             out.violation("channel sink shared by concurrent callers: %s: expected %s, observed %s" % (m["what"], json.dumps(m["expected"])[:120], json.dumps(m["observed"])[:120]), m)
         races = races + races3
+        # first use of the local time zone in a process while events are being copied by encrypt.Filter (F16, fixed)
+        for i in range(2 if quick else 6):
+            tp = scr.path("timeloc-%d.json" % i)
+            p4, races4 = run_race(vh, ["timeloc", "-out", tp], scr, "timeloc-%d" % i)
+            if p4.returncode != 0:
+                raise Broken("timeloc failed: " + p4.stderr[-1000:])
+            for pr in json.load(open(tp))["problems"]:
+                out.violation(pr["what"], pr)
+            races = races + races4
         f8_seen = False
         for blk in races:
             c = classify(blk)
